@@ -85,9 +85,37 @@ func (m *expiryModel) revert(cs consensus.State, cru consensus.RevertUpdate) {
 type c02Store struct {
 	*recStore
 	model *expiryModel
+	e     *sim.Env
+	tree  *gen.Tree
+	// consumedOutOfOrder: a block was applied while the expiring list of its
+	// height - although it follows the documented discipline - had another
+	// order than on a linear node (F-C02-1 showing in supplements / states
+	// instead of in a list that is still there to look at)
+	consumedOutOfOrder string
 }
 
 func (s *c02Store) ApplyBlock(cs consensus.State, cau consensus.ApplyUpdate) {
+	h := cs.Index.Height
+	if h <= s.model.require && h > 0 {
+		sut := s.recStore.DBStore.ExpiringFileContractIDs(h)
+		if fmt.Sprint(sut) != fmt.Sprint(s.model.lists[h]) && !(len(sut) == 0 && len(s.model.lists[h]) == 0) {
+			s.e.Violationf("C02.expiry-discipline", "list-vs-discipline", "when block %v is applied the expiring list of its height is %v, the documented discipline (append / swap-remove / prepend on revert) yields %v", cs.Index, sut, s.model.lists[h])
+		}
+		if n, ok := s.tree.ByID[cs.Index.ID]; ok && n.Parent != nil && n.Parent.Valid() {
+			lin := n.Parent.L.Expiring[h]
+			if len(lin) == len(sut) && fmt.Sprint(lin) != fmt.Sprint(sut) {
+				a, b := make([]string, len(lin)), make([]string, len(sut))
+				for i := range lin {
+					a[i], b[i] = lin[i].String(), sut[i].String()
+				}
+				sort.Strings(a)
+				sort.Strings(b)
+				if fmt.Sprint(a) == fmt.Sprint(b) && s.consumedOutOfOrder == "" {
+					s.consumedOutOfOrder = fmt.Sprintf("block %v applied with expiring list %v, a linear node has %v", cs.Index, sut, lin)
+				}
+			}
+		}
+	}
 	s.recStore.ApplyBlock(cs, cau)
 	s.model.apply(cs, cau)
 }
@@ -261,7 +289,7 @@ func runC02(e *sim.Env) {
 	}
 	model := &expiryModel{lists: map[uint64][]types.FileContractID{}, require: net.Require()}
 	rs := &recStore{DBStore: dbs}
-	st := &c02Store{recStore: rs, model: model}
+	st := &c02Store{recStore: rs, model: model, e: e, tree: tree}
 	s := &chainSUT{net: net, db: disk, disk: disk, store: rs, cm: chain.NewManager(st, tipState)}
 
 	mix := gen.FullMix
@@ -286,6 +314,11 @@ func runC02(e *sim.Env) {
 		e.Step()
 		var err error
 		e.Guard("C02.panic", "AddBlocks", func() { err = s.cm.AddBlocks(blocksOf(batch)) })
+		if st.consumedOutOfOrder != "" {
+			e.Probe("known_expiry_order")
+			e.Violationf("C02.expiry-order-history-dependent", "sut==discipline!=linear",
+				"after a reorg the order of an expiring-contract list differs from a linear node's although it follows the documented discipline, and the list was consumed in that order: %s", st.consumedOutOfOrder)
+		}
 		newTip := auditBestChain(e, "C02", s, tree)
 		e.Logf("AddBlocks(%d, last %s) -> err=%v tip %s", len(batch), batch[len(batch)-1].Describe(), err != nil, newTip.Describe())
 		moved := newTip != tip
@@ -382,7 +415,7 @@ func onlyExpiryOrder(a, b *chainSUT, maxH uint64) bool {
 
 func init() {
 	register(&Prop{
-		ID: "C02", Run: runC02, Quick: 1200, Thorough: 30000, Level: "exploration",
+		ID: "C02", Run: runC02, Quick: 900, Thorough: 30000, Level: "exploration",
 		Rule: "one run = drawn network + fork tree with every element-changing transaction kind + submission plan as in C01; after every step the node's served view (tip state, best index, blocks+supplements, states, raw element buckets, expiring lists, MainChain bucket) is compared with a linear twin node, with the view recorded the first time that tip was reached, and with the reference ledger (elements, leaf indices, Merkle proofs, block supplement); 80% of runs give every v1 contract a unique window end (order-safe), 20% stress several contracts per height; distinct = abstract trace (reorg depth bucket, regimes); non-trivial = at least one reorg reverting blocks",
 		Real: []string{"chain.Manager", "chain.DBStore (node under test and linear twin)"},
 		Stub: []string{"disk: simdisk.DB"},
